@@ -20,7 +20,63 @@ RULE = ("viewer sessions (every handshake variant; SetPixelFormat to accepted, 8
         "format) under whole / byte-wise / random chunkings; plus a malformed stream (unknown message types, unknown QEMU sub-types); non-trivial = distinct session with >= 3 viewer messages and >= 1 server message")
 
 
+def two_viewers_leg(ctx):
+    """two viewers served by ONE vnclog (`--forever`), the second connecting before the first one's outgoing connection is up:
+    each session is relayed to its own server connection and back, nothing crosses over"""
+    from unittest import mock
+    from twisted.internet import reactor
+    from vncdotool import loggingproxy as lp
+    r = ctx.rng
+    for si in range(ctx.n(4, 30)):
+        fac = lp.VNCLoggingServerFactory("h", 1)
+
+        class Out:
+            def write(self, s):
+                pass
+        fac.output = Out()
+        captured = []
+        tv, ts, srvs, cls = [[], []], [[], []], [], []
+        with mock.patch.object(reactor, "connectTCP", lambda h, p, f: captured.append(f)):
+            for k in range(2):
+                s_ = fac.buildProtocol(None)
+                s_.transport = FakeTransport(tv[k], "")
+                s_.connectionMade()
+                srvs.append(s_)
+        order = [0, 1] if r.random() < .5 else [1, 0]
+        cls = [None, None]
+        for k in order:
+            c_ = captured[k].buildProtocol(None)
+            c_.transport = FakeTransport(ts[k], "")
+            c_.connectionMade()
+            cls[k] = c_
+        hs = [b"RFB 003.008\n\x01" + bytes([k]), None]
+        sent_v = [b"RFB 003.008\n\x01" + bytes([k]) + struct.pack("!BBxxI", 4, 1, 0x61 + k) for k in range(2)]
+        sent_s = [server_init(4 + k, 4, vclient.RGB32, b"s%d" % k) for k in range(2)]
+        bad = None
+        try:
+            with Budget(10):
+                for k in order:
+                    srvs[k].dataReceived(sent_v[k])
+                for k in reversed(order):
+                    cls[k].dataReceived(sent_s[k])
+        except BaseException as e:  # noqa
+            bad = "raised " + exc_class(e)
+        ctx.count("two_viewer_sessions")
+        ctx.case(None, key=("two-viewers", si))
+        for k in range(2):
+            to_server = b"".join(t[1] for t in ts[k] if t[0] == "write")
+            to_viewer = b"".join(t[1] for t in tv[k] if t[0] == "write")
+            if not bad and (to_server != sent_v[k] or to_viewer != sent_s[k]):
+                bad = "session %d: its server received %d of %d bytes (%s), its viewer %d of %d bytes" % (
+                    k, len(to_server), len(sent_v[k]), "equal" if to_server == sent_v[k] else "different", len(to_viewer), len(sent_s[k]))
+        if bad:
+            ctx.violate("relay-two-viewers", {"input": {"viewers": 2, "outgoing_connections_established_in_order": order},
+                                              "observed": bad,
+                                              "how": "one VNCLoggingServerFactory, two viewer connections made before either outgoing connection, then data on all four transports"})
+
+
 def run(ctx):
+    two_viewers_leg(ctx)
     r = ctx.rng
     oldlim = limit_memory(6 << 30)
     n = ctx.n(120, 1500)
